@@ -48,7 +48,14 @@ def dep():
 
 def tree():
     text = st.builds(lambda s: {"k": "text", "s": s}, gen.safe_text(0, 3))
-    leaf = gen.opaque(st.one_of(dep(), dep(), text, st.just({"k": "meta"})))
+    headc = st.sampled_from(
+        [
+            {"k": "headc", "kids": [{"k": "text", "s": "hc-a"}]},
+            {"k": "headc", "kids": [{"k": "text", "s": "hc-b"}]},
+            {"k": "headc", "kids": [{"k": "tag", "name": "title", "ws": True, "attrs": [], "kids": [{"k": "text", "s": "T"}]}]},
+        ]
+    )
+    leaf = gen.opaque(st.one_of(dep(), dep(), dep(), text, st.just({"k": "meta"}), headc))
 
     def tag(ch):
         return st.builds(
@@ -88,7 +95,9 @@ def assign_uids(nodes, counter=None):
         if n["k"] == "dep":
             n = dict(n, uid=counter[0])
             bare = n.pop("bare", None)
-            if bare is None:
+            if "_headc" in n:
+                pass  # a head_content() item: its payload is its identity (name = hash of the rendering)
+            elif bare is None:
                 n["head"] = "<!--uid%d-->" % counter[0]
             elif bare == "empty-head":
                 n["head"] = []
@@ -140,13 +149,15 @@ def body_resolve(case, note):
     import htmltools as h
 
     # the forest repeated: many dependencies (size-triggered paths), at most ~260 so that a case stays cheap
+    from hv.checks.c11 import canon_headc, strip_private
+
     mult = min(case.get("mult", 1), max(1, 260 // max(1, len(D.preorder(case["roots"])))))
-    roots = assign_uids(case["roots"] * mult)
+    roots = assign_uids(canon_headc(case["roots"] * mult))  # head_content() items become dependency recipes named by content
     if case.get("repeat"):
         roots = repeat_some(_mark_shared(roots), case["repeat"])
     pre = D.preorder(roots)
     memo: dict = {}
-    objs = [build(r, memo) for r in roots]
+    objs = [build(r, memo) for r in strip_private(roots)]
     tl = h.TagList(*objs)
     pre_uids = [d["uid"] for d in pre]
     placed = _own_walk(list(tl), [])
@@ -190,7 +201,8 @@ def body_resolve(case, note):
                 elif (ka < kb) != (a < b):
                     lexdis = True
     note(tie or lexdis, "same-object-repeated" if case.get("repeat") and len(pre_uids) > len(set(pre_uids)) else "", "tie" if tie else "", "lexical-vs-numeric" if lexdis else "", "nested-depth" if any(n["k"] in ("tag", "list") for n in roots) else "", "suffix" if any(not d["version"].replace(".", "").isdigit() for d in pre) else "",
-         "more-than-64-dependencies" if len(pre) > 64 else "", "more-than-200-dependencies" if len(pre) > 200 else "", "bare-definition" if any("head" not in d or d["head"] == [] or d.get("script") == [] for d in pre) else "")
+         "more-than-64-dependencies" if len(pre) > 64 else "", "more-than-200-dependencies" if len(pre) > 200 else "", "bare-definition" if any("head" not in d or d["head"] == [] or d.get("script") == [] for d in pre) else "",
+         "head_content-before-a-dependency" if any("_headc" in d and any("_headc" not in e for e in pre[i + 1 :]) for i, d in enumerate(pre)) else "")
 
 
 def _desc(pre, idx):
@@ -247,7 +259,20 @@ def body_single(case, note):
 
 # ---------------------------------------------------------------- invalid definitions
 
-BAD_ITEMS = [3, "s", ["src", "x"], None, 1.5, [["href", "a.css"]], [["src", "a.js"]], [["name", "n"], ["content", "c"]], [["href", "a.css"], ["rel", "x"]]]
+BAD_ITEMS = [3, "s", ["src", "x"], None, 1.5, [["href", "a.css"]], [["src", "a.js"]], [["name", "n"], ["content", "c"]], [["href", "a.css"], ["rel", "x"]],
+             # objects that implement the mapping protocol and carry every required key, but are not dicts
+             {"mapping": "proxy"}, {"mapping": "userdict"}, {"mapping": "chainmap"}]
+
+
+def _mapping(kind, content):
+    import collections
+    import types
+
+    if kind == "proxy":
+        return types.MappingProxyType(dict(content))
+    if kind == "userdict":
+        return collections.UserDict(content)
+    return collections.ChainMap(dict(content), {})
 
 
 def invalid_case():
@@ -259,7 +284,7 @@ def invalid_case():
             "at": st.integers(0, 2),
             "how": st.sampled_from(["non-dict", "missing-key", "missing-key2"]),
             "bad": st.sampled_from(BAD_ITEMS),
-            "bad_source": st.sampled_from([3, "lib/", ["a"], {"package": "htmltools"}, {}, {"dir": "x"}, 2.5]),
+            "bad_source": st.sampled_from([3, "lib/", ["a"], {"package": "htmltools"}, {}, {"dir": "x"}, 2.5, {"mapping": "proxy"}, {"mapping": "userdict"}, {"mapping": "chainmap"}]),
             "single": st.booleans(),
         }
     )
@@ -286,14 +311,21 @@ def body_invalid(case, note):
     if f == "source":
         bad["source"] = case["bad_source"]
         cls = "source:" + type(case["bad_source"]).__name__
+        if isinstance(case["bad_source"], dict) and "mapping" in case["bad_source"]:
+            bad["source"] = _mapping(case["bad_source"]["mapping"], {"href": "http://ok/"})
+            cls = "source:non-dict-mapping"
     else:
         i = case["at"] % case["n_items"]
         if case["how"] == "non-dict":
             if case["bad"] is None and True:
                 bad[f][i] = 0
+            elif isinstance(case["bad"], dict) and "mapping" in case["bad"]:
+                bad[f][i] = _mapping(case["bad"]["mapping"], valid_items[f][i])
             else:
                 bad[f][i] = case["bad"]
             cls = f + ":non-dict-item"
+            if isinstance(case["bad"], dict) and "mapping" in case["bad"]:
+                cls = f + ":non-dict-mapping-item"
         else:
             req = REQ[f]
             key = req[0] if case["how"] == "missing-key" else req[-1]
@@ -340,7 +372,7 @@ CLAUSES = [
         quick=900,
         thorough=12000,
         shards_quick=4,
-        required=("tie", "lexical-vs-numeric", "nested-depth", "suffix", "same-object-repeated", "more-than-64-dependencies", "more-than-200-dependencies", "bare-definition"),
+        required=("tie", "lexical-vs-numeric", "nested-depth", "suffix", "same-object-repeated", "more-than-64-dependencies", "more-than-200-dependencies", "bare-definition", "head_content-before-a-dependency"),
         rule="see RULE",
     ),
     Clause("single", body_single, strategy=single_case, quick=400, thorough=3000, shards_quick=1, shards_thorough=4, rule=">=2 of script/stylesheet/meta given"),
@@ -352,7 +384,7 @@ CLAUSES = [
         thorough=4000,
         shards_quick=1,
         shards_thorough=4,
-        required=("script:missing-src", "stylesheet:missing-href", "meta:missing-name", "meta:missing-content", "script:non-dict-item", "source:dict", "source:int", "index>0"),
+        required=("script:missing-src", "stylesheet:missing-href", "meta:missing-name", "meta:missing-content", "script:non-dict-item", "source:dict", "source:int", "index>0", "source:non-dict-mapping", "script:non-dict-mapping-item"),
         rule="every case",
     ),
 ]
